@@ -212,7 +212,7 @@ def run(ctx: Ctx, env):
         for x in paths:
             for ev in x.events:
                 if ev.kind == "mutate":
-                    ctx.fail("R6.no-mutation", f"grammar|{env.grammar.productions[pidx - 1]}|{ev.data.get('target')}",
+                    ctx.fail("R6.no-mutation", f"grammar|{env.grammar.productions[pidx - 1]}|{str(ev.data.get('target'))[:40]}",
                              f"grammar action mutates a value already owned by a node: {ev.data}", ev.where)
     if not any(not o.ok and o.rule == "R6.no-mutation" for o in ctx.obligations):
         ctx.ok("R6.no-mutation", "package", f"{n_fn} functions, no store/delete/mutating call on node parameters or their lists")
